@@ -5,7 +5,7 @@ import os, sys, json, shutil, subprocess
 ROOT = os.path.dirname(os.path.dirname(os.path.abspath(__file__)))
 x, prop = sys.argv[1], sys.argv[2]
 rnd = sys.argv[3] if len(sys.argv) > 3 else ''     # '' = first round (/tmp/mut_x, ids x_a,x_b); '2' = second round (/tmp/mut2_x, ids x_c,x_d)
-names = {'': 'ab', '2': 'cd', '3': 'ef', '4': 'gh', '5': 'ij', '6': 'kl'}[rnd]
+names = {'': 'ab', '2': 'cd', '3': 'ef', '4': 'gh', '5': 'ij', '6': 'kl', '7': 'mn'}[rnd]
 for v, nm in zip('AB', names):
     src = f'/tmp/mut{rnd}_{x}/{v}'
     if not os.path.isdir(src): print('missing', src); continue
